@@ -183,6 +183,17 @@ def step(prefix, dn, state, ev):
     except Exception as e:
         got = Raises(type(e).__name__)
     want = getattr(a, name)(*[list(x) if isinstance(x, tuple) and name.endswith("many") else x for x in real_args], **akw)
+    # a follow-up on the same connection: each call must still get the answer to its own request
+    probe_bad = None
+    if not isinstance(got, Raises):
+        try:
+            pg = client.gets(KEYS[0])
+            pd = client.delete("zz-absent", noreply=False)
+        except Exception as e:
+            pg, pd = Raises(type(e).__name__), None
+        pw = a.gets(KEYS[0])
+        if not (pg == pw and pd is False):
+            probe_bad = (pg, pd, pw)
     if name in ("gets", "gats") and isinstance(got, tuple) and got[1] is not None:
         tokens[args[0]] = int(got[1])
     if name == "gets_many" and isinstance(got, dict):
@@ -198,6 +209,9 @@ def step(prefix, dn, state, ev):
     diff = None
     if sc != ac:
         diff = (sc, ac)
+    if probe_bad is not None and diff is None and same(got, want):
+        diff = ("follow-up on the same connection: gets(%r) -> %r, delete('zz-absent') -> %r" % (KEYS[0], probe_bad[0], probe_bad[1]),
+                "abstract map: gets -> %r, delete -> False" % (probe_bad[2],))
     return (new_ssnap, a.dump(), tokens), got, want, diff
 
 
